@@ -336,6 +336,20 @@ def stretch_case(case):
     if not case["with_idle"] is False:
         pass
     suffix = case["suffix"]
+
+    def fitting(params):
+        out = []
+        for i, p_ in enumerate(params):
+            k = p_.kind
+            out.append(value("qubit", i) if k == ParamType.QUBIT else value("float", i) if k == ParamType.FLOAT else value("int", i) if k == ParamType.INT else value("register", i))
+        return out
+
+    if case.get("call_parents_first"):
+        # a definition that has already been USED when the variants are derived
+        for name, g in base.items():
+            st_, r = guard(g, *fitting(list(g.parameters)), what="parent gate call")
+            if st_ == "err":
+                raise Violation("fitting-call-rejected", f"parent {name}: {r}", where="parent")
     st_, sg = guard(stretched_gates, dict(base), suffix=suffix, what="stretched_gates")
     if st_ == "err":
         raise Violation("stretched-gates-raised", f"{sg}\nnames {names}")
@@ -356,6 +370,19 @@ def stretch_case(case):
         if len(list(g.parameters)) != len(pp):
             raise Violation("parent-modified", name)
         arities.add(len(pp))
+        # the variant checks its calls like any definition: the stretch factor is a FLOAT
+        good = fitting(pp)
+        for factor in (2.0, 3, value("const-float", 0)):
+            st_, r = guard(s, *good, factor, what="stretched gate call")
+            if st_ == "err":
+                raise Violation("fitting-call-rejected", f"{name}{suffix}{tuple(good)} stretch={factor!r}: {r}", where="stretched")
+        for bad in (value("qubit", 1), "x", None, value("register", 0)):
+            st_, r = guard(s, *good, bad, what="stretched gate call")
+            if st_ == "ok":
+                raise Violation("unfitting-call-accepted", f"{name}{suffix}: stretch factor {bad!r} accepted (parents called first: {bool(case.get('call_parents_first'))})", where="stretched")
+        st_, r = guard(s, *good, what="stretched gate call without factor")
+        if st_ == "ok":
+            raise Violation("unfitting-call-accepted", f"{name}{suffix} called without its stretch factor", where="stretched-arity")
         if g.ideal_unitary is None:
             if s.ideal_unitary is not None:
                 raise Violation("stretched-unitary-invented", name)
@@ -392,6 +419,7 @@ def _stretch_gen(ch):
         "suffix": ch.pick(["_stretched", "_s", "X"]),
         "order": ch.pick(["as-built", "active-then-idle", "idle-then-active", "reversed"]),
         "arg_seed": ch.int(0, 10**6),
+        "call_parents_first": ch.bool(),
     }
 
 
